@@ -203,7 +203,7 @@ fn never_holes() -> Vec<Case> {
         ("List[!?]", "[Option.Some(@)]"),
         ("W[!]", "W { inner: @ }"),
         ("E[!]", "E.X(@)"),
-        ("{ inner: ! }", "{ inner: @ }"),
+        ("{ inner: !, z: i32 }", "{ inner: @, z: 1 }"),
         ("{ inner: List[!] }", "{ inner: [@] }"),
         ("Result[!, i32]", "Result.Ok(@)"),
     ];
